@@ -192,6 +192,31 @@ func signedBytes(thorough bool) {
 		}()
 	}
 	wg.Wait()
+	// tipset keys at the CBOR header and protocol boundaries: every single-byte change must still change the signed bytes
+	for _, klen := range []int{1, 23, 24, 25, 255, 256, 257, 759, gpbft.TipsetKeyMaxLen} {
+		for _, n := range []int{1, 3} {
+			base := mkChain(n)
+			for _, t := range base.TipSets {
+				t.Key = bytes.Repeat([]byte{0x33}, klen)
+			}
+			ref := string((&gpbft.Payload{Instance: 7, Phase: gpbft.COMMIT_PHASE, SupplementalData: supp, Value: base}).MarshalForSigning(nn))
+			for ti := 0; ti < n; ti++ {
+				for _, pos := range []int{0, klen / 2, klen - 2, klen - 1} {
+					if pos < 0 || pos >= klen {
+						continue
+					}
+					c := cloneChain(base)
+					c.TipSets[ti].Key[pos] ^= 0x01
+					evals.Add(1)
+					got := string((&gpbft.Payload{Instance: 7, Phase: gpbft.COMMIT_PHASE, SupplementalData: supp, Value: c}).MarshalForSigning(nn))
+					if got == ref || c.Key() == base.Key() || string(c.TipSets[ti].MarshalForSigning()) == string(base.TipSets[ti].MarshalForSigning()) {
+						chk.Violation("signed-bytes-collision", fmt.Sprintf("tipset key of %d bytes: changing byte %d of tipset %d does not change the bytes to sign / the chain key", klen, pos, ti), map[string]any{"kind": "signed-bytes-keylen", "key_len": klen, "byte": pos, "tipset": ti})
+						return
+					}
+				}
+			}
+		}
+	}
 	// VRF inputs
 	seen := map[string]string{}
 	for _, v := range []struct {
